@@ -68,6 +68,10 @@ FinalizeBegin(n, w) == /\ \/ phase = "seq" /\ n = acc
 \* finalize_end(n): cross-file findings can only add
 FinalizeEnd(n) == /\ phase = "finalizing" /\ n >= begun
                   /\ phase' = "idle" /\ acc' = 0 /\ want' = 0 /\ got' = 0 /\ begun' = 0 /\ cur' = NoFile
+\* abort: a rule raised a configuration error (ValueError); it propagates to the caller and the run, if any,
+\* ends without being finalized
+Abort == /\ phase \in {"idle", "seq", "worker"}
+         /\ phase' = "idle" /\ cur' = NoFile /\ acc' = 0 /\ want' = 0 /\ got' = 0 /\ begun' = 0
 \* worker(path) ... worker_done(path, n) in a pool worker process
 WorkerBegin(f) == /\ phase = "idle" /\ phase' = "worker" /\ cur' = NoFile /\ acc' = 0
                   /\ UNCHANGED <<want, got, begun>>
@@ -78,7 +82,7 @@ Next == \/ RunBeginSeq
         \/ \E n \in 2..3 : RunBeginPool(n)
         \/ \E f \in File, d \in Decisions : LintFile(f, d)
         \/ \E f \in File, n \in 0..MaxN : Check(f, n) \/ CheckFeeding(f, n)
-        \/ Done
+        \/ Done \/ Abort
         \/ \E n \in 0..(3 * MaxN) : FinalizeBegin(n, n) \/ FinalizeEnd(n)
         \/ \E f \in File : WorkerBegin(f)
         \/ \E f \in File, n \in 0..(3 * MaxN) : WorkerDone(f, n)
